@@ -257,8 +257,16 @@ def judge(ctx, case, lines, out, label=''):
         # collect what belongs to this request: skip asynchronous lines
         mine = []
         ishelp = req is None or (req != 'undecodable' and req[0] == 'help')
+        lossy = None
+        if req == 'undecodable':     # what the node can make of it (action and specifier, undecodable bytes replaced)
+            parts = raw.strip().decode('utf-8', 'replace').split(' ', 2) + ['', '']
+            lossy = (parts[0], parts[1] or None)
         while k < len(replies):
             r = replies[k]
+            if lossy and r[0] == 'error_' + lossy[0] and r[1] == lossy[1] and r[0] in ASYNC:
+                mine.append(r)      # the refusal of an undecodable line whose action looks like an asynchronous message
+                k += 1
+                break
             if req not in (None, 'undecodable') and r[0] == 'error_' + req[0] and r[1] == req[1]:
                 mine.append(r)      # the error reply to a request whose action looks like an asynchronous message
                 k += 1
